@@ -181,6 +181,56 @@ def datamode_atts(sess, rng, schema, ms):
         meta_point(sess, ms, noframe=True)
 
 
+def gen_bigvar_meta_session(rng):
+    """header of a file whose last variable exceeds the 32-bit size field of CDF-1/2 (vsize must then be
+    stored as 2^32-1), at / just below / above 2^32-4 bytes, as last fixed variable or last record variable;
+    only definitions: the file stays a few hundred bytes and is decoded by the specification decoder"""
+    sess = Session(rng, np_=rng.choice([1, 1, 2]))
+    f = sess.f
+    fmt = rng.choice([1, 2, 2, 5])
+    ms = MetaState(fmt)
+    sess.align = {}
+    sess.emit('* create %d %d 1' % (f, fmt), kind='create')
+    class S_: pass
+    sc = S_(); sc.vars = []; sc.fmt = fmt; sc.dims = []
+    sess.s = sc
+    def dim(n, l):
+        sess.emit('* def_dim %d %s %d' % (f, hx(n), -1 if l == 0 else l)); ms.dims.append((n, l)); return len(ms.dims) - 1
+    def var(n, t, ids, natt=0):
+        sess.emit('* def_var %d %s %d %d %s' % (f, hx(n), t, len(ids), fmt_list(ids)))
+        ms.vars.append(dict(name=n, type=t, dimids=list(ids), atts=[]))
+    as_rec = rng.chance(1, 3)
+    t = rng.choice([1, 3, 4, 6] if fmt < 5 else [1, 3, 4, 6, 10])
+    xs = ELSIZE[t]
+    target = 2**32 - 4 + rng.choice([-8, -4, 0, 4, 8, 16, 2**20]) // xs * xs      # bytes (per record for a record variable)
+    if fmt == 1 and not as_rec and rng.chance(1, 2):
+        target = 2**31 - 4 + rng.choice([0, 4, 8])
+    n = max(target // xs, 1)
+    small = dim('s', rng.range(1, 3))
+    if rng.chance(1, 2):
+        var('a', rng.choice([1, 3, 4]), [small])
+    if as_rec:
+        tdim = dim('t', 0)
+        if n <= 2**31 - 1 or fmt == 5:
+            b = dim('b', n); ids = [tdim, b]
+        else:
+            b1 = dim('b1', n // 2); b2 = dim('b2', 2); ids = [tdim, b1, b2]
+        var('big', t, ids)
+    else:
+        if n <= 2**31 - 1 or fmt == 5:
+            b = dim('b', n); ids = [b]
+        else:
+            b1 = dim('b1', n // 2); b2 = dim('b2', 2); ids = [b1, b2]
+        var('big', t, ids)
+    sess.emit('* enddef %d' % f, kind='enddef')
+    meta_point(sess, ms, first=True, noframe=True)
+    sess.emit('* close %d' % f)
+    sess.emit('* open %d 0' % f)
+    meta_point(sess, ms, noframe=True)
+    sess.emit('* close %d' % f)
+    return sess
+
+
 def decode_file(model_exe, hexbytes, workdir, tag):
     p = os.path.join(workdir, 'dec-%s.hex' % tag)
     open(p, 'w').write(hexbytes + '\n')
